@@ -1118,7 +1118,15 @@ static size_t ares_calc_query_timeout(const ares_query_t   *query,
    * retry from the last retry */
   rounds = (query->try_count / num_servers);
   if (rounds > 0) {
-    timeplus <<= rounds;
+    /* Saturate instead of overflowing.  With a large "tries" option the number
+     * of rounds can exceed the width of size_t, and shifting by that much is
+     * undefined behavior; long before that the value wraps around. */
+    const size_t max_timeplus = 0x7FFFFFFF; /* ~24 days in ms */
+    if (rounds >= 31 || timeplus > (max_timeplus >> rounds)) {
+      timeplus = max_timeplus;
+    } else {
+      timeplus <<= rounds;
+    }
   }
 
   if (channel->maxtimeout && timeplus > channel->maxtimeout) {
